@@ -18,7 +18,10 @@ impl<'a> SessionData<'a> {
         match packet {
             ReceivedPacket::ConnAck(_) => return Err(ProtocolError::UnexpectedPacket.into()),
             ReceivedPacket::SubAck(ack) => {
-                if !self.outbound.ack_packet(ack.packet_id) {
+                if !self
+                    .outbound
+                    .ack_packet(ack.packet_id, |header| header >> 4 == 8)
+                {
                     debug!("Ignoring stale SUBACK for packet id {=u16}", ack.packet_id);
                     return Ok(false);
                 }
@@ -28,7 +31,10 @@ impl<'a> SessionData<'a> {
                 }
             }
             ReceivedPacket::UnsubAck(ack) => {
-                if !self.outbound.ack_packet(ack.packet_id) {
+                if !self
+                    .outbound
+                    .ack_packet(ack.packet_id, |header| header >> 4 == 10)
+                {
                     debug!(
                         "Ignoring stale UNSUBACK for packet id {=u16}",
                         ack.packet_id
@@ -45,7 +51,9 @@ impl<'a> SessionData<'a> {
                 runtime.ping_timeout = None;
             }
             ReceivedPacket::PubAck(ack) => {
-                if !self.outbound.ack_packet(ack.packet_id) {
+                if !self.outbound.ack_packet(ack.packet_id, |header| {
+                    header >> 4 == 3 && (header >> 1) & 3 == 1
+                }) {
                     debug!("Ignoring stale PUBACK for packet id {=u16}", ack.packet_id);
                     return Ok(false);
                 }
@@ -60,7 +68,9 @@ impl<'a> SessionData<'a> {
                 ack.reason.code().as_result()?;
             }
             ReceivedPacket::PubRec(rec) => {
-                let queue_release = match self.outbound.ack_packet(rec.packet_id) {
+                let queue_release = match self.outbound.ack_packet(rec.packet_id, |header| {
+                    header >> 4 == 3 && (header >> 1) & 3 == 2
+                }) {
                     true => {
                         if rec.reason.code().failed() {
                             runtime.send_quota = runtime
